@@ -65,10 +65,11 @@ case "${1:-}" in
           CODE=$?
           ;;
         C09|C10)
-          /verif/tools/fuzz_phase.sh "$ID" "${NFV_FUZZ_RUNS:-3000000}" 16 fuzz_history
+          # (the attribution oracle runs at 1-3 thousand executions/s per worker)
+          /verif/tools/fuzz_phase.sh "$ID" "${NFV_FUZZ_RUNS:-1000000}" 16 fuzz_history
           CODE=$?
           if [ $CODE -eq 0 ]; then
-            /verif/tools/fuzz_phase.sh "$ID" "${NFV_FUZZ_PLAN_RUNS:-1000000}" 16 fuzz_plan
+            /verif/tools/fuzz_phase.sh "$ID" "${NFV_FUZZ_PLAN_RUNS:-500000}" 16 fuzz_plan
             CODE=$?
           fi
           ;;
